@@ -6,7 +6,8 @@ import common
 TITLE = 'A session with four conforming clients always runs to completion'
 LEAN_TARGETS = ['BridgeVerif.Props.C09']
 REQUIRED = ['session_disciplined', 'canonical_run_terminates', 'no_lost_wakeup', 'session_always_completes',
-            'runs_are_bounded', 'never_deadlocks', 'end_of_session_is_last', 'log_is_opened_written_closed']
+            'runs_are_bounded', 'never_deadlocks', 'end_of_session_is_last', 'log_is_opened_written_closed',
+            'ready_messages_pass_the_server_check', 'seat_thread_follows_its_queue']
 SHARDS = {'quick': 4, 'thorough': 16}
 WANT = {'completion', 'ops'}
 RULE = ('sessions of 1-3 boards (random legal auctions incl. passed-out boards, random play incl. revokes, both card '
